@@ -734,6 +734,60 @@ Section TracePreservation.
       rewrite (delta_sym SR i y). reflexivity.
   Qed.
 
+  (* the entries of the non-destructive measurement on indices given by their parts *)
+  Lemma measure1_false_at : forall q p c r s,
+    length q = 1%nat -> length p = 1%nat -> length c = 1%nat -> length r = 1%nat -> length s = 1%nat ->
+    cq_mat (cq_measure1 false : cqmap SR) (q ++ p) (c ++ r ++ s)
+    = delta q c * delta p c * (delta r c * delta s c).
+  Proof.
+    intros q p c r s Hq Hp Hc Hr Hs. dbits; cbn; unfold delta; cbn; ring.
+  Qed.
+
+  (* CQMap.measure(n qubits, destructive=False)[q q' ; c r r'] = [q = c][q' = c][r = c][r' = c] *)
+  Lemma measure_nd_closed_form : forall n q p c r s,
+    length q = n -> length p = n -> length c = n -> length r = n -> length s = n ->
+    cq_mat (cq_measure n false : cqmap SR) (q ++ p) (c ++ r ++ s)
+    = delta q c * delta p c * (delta r c * delta s c).
+  Proof.
+    induction n as [|n IH]; intros q p c r s Hq Hp Hc Hr Hs.
+    - dbits. cbn. unfold delta. cbn. ring.
+    - destruct n as [|n]; [apply measure1_false_at; assumption|].
+      destruct (measure_types SR (S n) false) as (D & C).
+      change (cq_measure (S (S n)) false : cqmap SR)
+        with (cq_tensor (cq_measure1 false) (cq_measure (S n) false) : cqmap SR).
+      destruct (split2 _ 1 (S n) q Hq) as (q0 & q1 & -> & Lq0 & Lq1).
+      destruct (split2 _ 1 (S n) p Hp) as (p0 & p1 & -> & Lp0 & Lp1).
+      destruct (split2 _ 1 (S n) c Hc) as (c0 & c1 & -> & Lc0 & Lc1).
+      destruct (split2 _ 1 (S n) r Hr) as (r0 & r1 & -> & Lr0 & Lr1).
+      destruct (split2 _ 1 (S n) s Hs) as (s0 & s1 & -> & Ls0 & Ls1).
+      change ((q0 ++ q1) ++ p0 ++ p1) with (idx6 [] [] q0 q1 p0 p1).
+      change ((c0 ++ c1) ++ (r0 ++ r1) ++ s0 ++ s1) with (idx6 c0 c1 r0 r1 s0 s1).
+      cbn [fst snd] in C.
+      rewrite cq_tensor_at by (rewrite ?D, ?C; cbn [cq_measure1 cq_dom cq_cod fst snd length]; first [assumption | reflexivity]).
+      cbn [app].
+      rewrite (measure1_false_at q0 p0 c0 r0 s0) by assumption.
+      rewrite (IH q1 p1 c1 r1 s1) by assumption.
+      rewrite (delta_app SR q0 q1 c0 c1), (delta_app SR p0 p1 c0 c1),
+              (delta_app SR r0 r1 c0 c1), (delta_app SR s0 s1 c0 c1) by lia.
+      ring.
+  Qed.
+
+  Lemma tp_measure_nd : forall n, tp (cq_measure n false : cqmap SR).
+  Proof.
+    intros n i Hi. destruct (measure_types SR n false) as (D & C). rewrite D, C in *.
+    cbn [fst snd uw Nat.add] in *.
+    destruct (split2 _ n n i Hi) as (q & p & -> & Lq & Lp).
+    unfold tr_out, disc. cbn [fst snd skipn].
+    rewrite (firstn_app_len _ n q), (skipn_app_len _ n q) by exact Lq.
+    rewrite (bsum_ext SR n _ (fun x => delta q x * delta p x)).
+    - rewrite (bsum_delta_l SR n q (fun x => delta p x)) by exact Lq. apply delta_sym.
+    - intros x Hx.
+      rewrite (bsum_ext SR n _ (fun y => (delta q x * delta p x * delta y x) * delta y x)).
+      + rewrite (bsum_delta_r SR n x (fun y => delta q x * delta p x * delta y x)) by exact Hx.
+        rewrite delta_refl. ring.
+      + intros y Hy. rewrite measure_nd_closed_form by assumption. ring.
+  Qed.
+
   (* ------------------------------------------------------------ the class of boxes *)
   Lemma ket_isometry : forall bs, isometry 0 (length bs) (box_eval (BKet bs : box SR)).
   Proof.
@@ -748,7 +802,7 @@ Section TracePreservation.
   Lemma unitary_isometry : forall n (U : mat SR), unitary n U -> isometry n n U.
   Proof. intros n U [H _]. exact H. Qed.
 
-  (* preparations, unitaries, (destructive) measurements overriding bits or not,
+  (* preparations, unitaries, measurements (destructive or not, overriding bits or not),
      discards, constructive encodings, swaps, stochastic classical gates *)
   Definition tp_box (b : mbox SR) : Prop :=
     match b with
@@ -757,7 +811,7 @@ Section TracePreservation.
     | MCopy => True
     | MBits _ dag => dag = false
     | MDiscard _ => True
-    | MMeasure _ d _ => d = true
+    | MMeasure _ _ _ => True
     | MEncode _ c r => c = true /\ r = false
     | MSwap _ _ => True
     | _ => False
@@ -784,9 +838,11 @@ Section TracePreservation.
       rewrite (bsum_ext SR _ _ (fun o => 1 * delta o bs)) by (intros; ring).
       apply (bsum_delta_r SR (length bs) bs (fun _ => 1)). reflexivity.
     - apply tp_discard.
-    - subst d. cbn [cq_box mbox_is_dagger raw_ar]. unfold ar_measure. destruct o.
-      + apply tp_tensor; [apply tp_measure | apply tp_discard].
-      + apply tp_measure.
+    - assert (Hm : tp (cq_measure n d : cqmap SR))
+        by (destruct d; [apply tp_measure | apply tp_measure_nd]).
+      cbn [cq_box mbox_is_dagger raw_ar]. unfold ar_measure. destruct o.
+      + apply tp_tensor; [exact Hm | apply tp_discard].
+      + exact Hm.
     - destruct H as [-> ->]. apply tp_encode.
     - apply tp_swap.
   Qed.
